@@ -183,6 +183,16 @@ Inductive pk_test :=
 | PkSingleValue                      (* `single_value`: the default is one value, not one per destination (repaired trees only) *)
 | PkContainerTypeAndLenNeN | PkNotIsList.
 Inductive nargs := NStar | NPlus.
+(* FieldWrapper.postprocess: the if/elif chain (test on the field, what the arm returns; an arm that does not return
+   falls through to the final `return raw_parsed_value`) *)
+Inductive post_test := PtIsEnum | PtIsChoice | PtIsTuple | PtIsBool | PtIsList | PtIsSubparser | PtIsOptional | PtNotBuiltin.
+Inductive post_act := PaEnumLookupIfStr | PaChoiceDict | PaTupleIfNotTuple | PaRaw | PaListIfTuple | PaOptionalTuple | PaTypeCall.
+(* FieldWrapper.default: where the value comes from, in the order the if/elif chain asks *)
+Inductive dsource := SrcManual | SrcSubgroup | SrcParentDefaults | SrcFieldDefault | SrcFactory | SrcStoreTrue | SrcStoreFalse.
+(* FieldWrapper.required: the sequence of `if test: return value` *)
+Inductive req_test := RqExplicit | RqSubgroup | RqStoreAction | RqOptional | RqParentRequired | RqNargsOptionalish
+                    | RqNargsPlus | RqDefaultNone | RqReused.
+Inductive req_ret := RrConst (b : bool) | RrStored | RrSubgroupDefaultMissing | RrAnyMissing.
 
 Section WithFacts.
   Variable str2bool : string -> option bool.                 (* Gen/FactsBool: utils.str2bool *)
@@ -198,6 +208,15 @@ Section WithFacts.
   Variable merge_first_sorted : bool.                        (* _fix_conflict_merge: first = sorted(...)[0] *)
   Variable merge_rest_unsorted : bool.                       (*                      loop over conflict.wrappers[1:] *)
   Variable merge_dedupes : bool.                             (* DataclassWrapper.merge: `if dest not in self.destinations` *)
+  Variable post_chain : list (post_test * post_act).         (* FieldWrapper.postprocess *)
+  Variable default_sources : list dsource.                   (* FieldWrapper.default: order of the sources *)
+  Variable defaults_top_fresh : bool.                        (* DataclassWrapper.defaults: a top-level wrapper without default returns a NEW [] *)
+  Variable defaults_nested_seeded : bool.                    (*   a member wrapper seeds its defaults with the member field's own default *)
+  Variable req_chain : list (req_test * req_ret).            (* FieldWrapper.required *)
+  Variable req_else : bool.
+  Variable conflict_discovery_order : bool.                  (* get_conflict: wrappers of one option string in registration (flattening) order *)
+  Variable nested_dests_from_parent : bool.                  (* DataclassWrapper.destinations: [f"{d}.{name}" for d in parent.destinations] *)
+  Variable primitive_parsers : list string.                  (* field_parsing._parsing_fns: the types parsed with their own constructor *)
 
   (* ----- per-token converters (argparse `type=`; a raise of ValueError/TypeError/ArgumentTypeError is exit 2) ----- *)
   Definition conv_item_lit (e : ety) (l : lit) : option val :=        (* T(v) for v a literal; None = raises *)
@@ -241,9 +260,11 @@ Section WithFacts.
 
   Definition convert (k : kind) (t : tok) : res val :=
     match k with
-    | KInt => opt_exit (option_map VInt (parse_int (t_raw t)))
-    | KFloat => opt_exit (option_map (fun x => let '(n, m, e) := x in VFloat n m e) (parse_dec (t_raw t)))
-    | KStr => Ok (VStr (t_raw t))
+    | KInt => if str_in "int" primitive_parsers then opt_exit (option_map VInt (parse_int (t_raw t))) else Err OutOfFuel
+    | KFloat => if str_in "float" primitive_parsers
+                then opt_exit (option_map (fun x => let '(n, m, e) := x in VFloat n m e) (parse_dec (t_raw t)))
+                else Err OutOfFuel
+    | KStr => if str_in "str" primitive_parsers then Ok (VStr (t_raw t)) else Err OutOfFuel
     | KBool => opt_exit (option_map VBool (str2bool (t_raw t)))
     | KEnum ms => if str_in (t_raw t) ms then Ok (VStr (t_raw t)) else Err (Exit 2)     (* type=str, choices=names *)
     | KList e => parse_container false e t
@@ -309,30 +330,66 @@ Section WithFacts.
   (* ----- postprocess ----- *)
   Fixpoint chars_of (s : string) : list val :=
     match s with EmptyString => [] | String c r => VStr (String c "") :: chars_of r end.
-  Definition postprocess (k : kind) (v : val) : res val :=
-    match k with
-    | KEnum ms => match v with
-                  | VStr s => if str_in s ms then Ok (VEnum s) else Err (Raise "KeyError")
-                  | _ => Ok v
-                  end
-    | KTuple _ _ => match v with
-                    | VTuple _ => Ok v
-                    | VList l => Ok (VTuple l)
-                    | VStr s => Ok (VTuple (chars_of s))
-                    | _ => Err (Raise "TypeError")                    (* tuple(3) *)
-                    end
-    | KList _ => match v with VTuple l => Ok (VList l) | _ => Ok v end
-    | _ => Ok v
+  (* which tests of the chain hold for a field of kind k (no choices, no subparser, not Optional in this model);
+     Enum classes and typing generics are not in utils.builtin_types *)
+  Definition post_test_holds (t : post_test) (k : kind) : bool :=
+    match t, k with
+    | PtIsEnum, KEnum _ | PtIsTuple, KTuple _ _ | PtIsBool, KBool | PtIsList, KList _ => true
+    | PtNotBuiltin, KEnum _ | PtNotBuiltin, KList _ | PtNotBuiltin, KTuple _ _ => true
+    | _, _ => false
     end.
+  Definition do_post (a : post_act) (k : kind) (v : val) : res val :=
+    match a with
+    | PaEnumLookupIfStr =>
+        match v, k with
+        | VStr s, KEnum ms => if str_in s ms then Ok (VEnum s) else Err (Raise "KeyError")
+        | VStr _, _ => Err OutOfFuel
+        | _, _ => Ok v
+        end
+    | PaTupleIfNotTuple =>
+        match v with
+        | VTuple _ => Ok v
+        | VList l => Ok (VTuple l)
+        | VStr s => Ok (VTuple (chars_of s))
+        | _ => Err (Raise "TypeError")                    (* tuple(3) *)
+        end
+    | PaListIfTuple => match v with VTuple l => Ok (VList l) | _ => Ok v end
+    | PaRaw => Ok v
+    | PaChoiceDict | PaOptionalTuple | PaTypeCall => Err OutOfFuel   (* arms this model does not describe *)
+    end.
+  Fixpoint run_post (chain : list (post_test * post_act)) (k : kind) (v : val) : res val :=
+    match chain with
+    | [] => Ok v                                            (* return raw_parsed_value *)
+    | (t, a) :: r => if post_test_holds t k then do_post a k v else run_post r k v
+    end.
+  Definition postprocess (k : kind) (v : val) : res val := run_post post_chain k v.
 
   (* ----- the values: what argparse hands to FieldWrapper.__call__, then duplicate + postprocess per destination ----- *)
+  (* FieldWrapper.required for a merged field of this model: no explicit `required`, not a subgroup, action "store",
+     not Optional, parent not required, no custom nargs; the packaged default never contains MISSING *)
+  Definition req_test_holds (t : req_test) (default_none : bool) : bool :=
+    match t with RqDefaultNone => default_none | RqReused => true | _ => false end.
+  Fixpoint is_required (chain : list (req_test * req_ret)) (default_none : bool) : option bool :=
+    match chain with
+    | [] => Some req_else
+    | (t, r) :: rest =>
+        if req_test_holds t default_none then
+          match r with RrConst b => Some b | RrAnyMissing => Some false | _ => None end
+        else is_required rest default_none
+    end.
+
   Definition collect (k : kind) (pd : option (list val)) (cli : option (list tok)) : res (list val) :=
-    match cli with
-    | None => match pd with Some l => Ok l | None => Err (Exit 2) end         (* required option missing *)
-    | Some toks =>
-        match toks, (match pd with None => nargs_required | Some _ => nargs_optional end) with
-        | [], NPlus => Err (Exit 2)                                            (* expected at least one argument *)
-        | _, _ => map_res (convert k) toks
+    match is_required req_chain (match pd with None => true | Some _ => false end) with
+    | None => Err OutOfFuel
+    | Some req =>
+        match cli with
+        | None => if req then Err (Exit 2)                                    (* required option missing *)
+                  else match pd with Some l => Ok l | None => Err OutOfFuel end
+        | Some toks =>
+            match toks, (if req then nargs_required else nargs_optional) with
+            | [], NPlus => Err (Exit 2)                                        (* expected at least one argument *)
+            | _, _ => map_res (convert k) toks
+            end
         end
     end.
 
@@ -363,25 +420,37 @@ Section WithFacts.
         else Ok (fold_left (fun acc d => merge_dests acc [d]) others [first])
     end.
 
-  (* the python object `default` of the surviving field wrapper.
-     explicit = per registered wrapper, the field's value in add_arguments(default=...) (top-level wrappers only);
-     a top-level wrapper without default has `defaults == []` re-created on every access, so extending it is lost;
-     a nested wrapper's defaults are seeded from the parent's field (default_factory), one entry per destination. *)
+  (* the field's value in every entry of the surviving wrapper's `defaults` list.
+     explicit = per registered wrapper, the field's value in add_arguments(default=...) (top-level wrappers only).
+     A top-level wrapper without default has `defaults == []` RE-CREATED on every access (defaults_top_fresh), so extending
+     it in merge() is lost; a member wrapper's defaults are seeded from the member field's default_factory, one per destination. *)
+  Definition parent_defaults (first_top : bool) (n : nat) (cd : option val) (explicit : list (option val)) : list val :=
+    if first_top then
+      if (match explicit with Some _ :: _ => true | _ => false end) || negb defaults_top_fresh
+      then flat_map (fun o => match o with Some e => [e] | None => [] end) explicit
+      else []
+    else if defaults_nested_seeded then match cd with Some d => repeat d n | None => [] end else [].
+
+  (* the first source of FieldWrapper.default that has something; `single` = it is ONE value.
+     cd reaches the field as `default=` unless it is a list, which dataclasses only accept through default_factory *)
+  Fixpoint pick_source (order : list dsource) (pdefs : list val) (cd : option val) : option (val * bool) :=
+    match order with
+    | [] => None
+    | SrcParentDefaults :: r =>
+        match pdefs with [] => pick_source r pdefs cd | [e] => Some (e, true) | es => Some (VList es, false) end
+    | SrcFieldDefault :: r =>
+        match cd with Some (VList _) | None => pick_source r pdefs cd | Some d => Some (d, true) end
+    | SrcFactory :: r =>
+        match cd with Some (VList l) => Some (VList l, true) | _ => pick_source r pdefs cd end
+    | _ :: r => pick_source r pdefs cd                     (* not set from outside, not a subgroup, action "store" *)
+    end.
+
   Definition default_object (first_top : bool) (n : nat) (cd : option val) (explicit : list (option val))
     : res (option (val * bool)) :=
-    if first_top then
-      match explicit with
-      | Some e0 :: _ =>
-          match flat_map (fun o => match o with Some e => [e] | None => [] end) explicit with
-          | [e] => Ok (Some (e, true))
-          | es => Ok (Some (VList es, false))
-          end
-      | _ => Ok (option_map (fun d => (d, true)) cd)
-      end
-    else match cd with
-         | Some d => Ok (Some (VList (repeat d n), false))
-         | None => Err (Raise "TypeError")                 (* default_factory of the member cannot build the class *)
-         end.
+    match first_top, cd with
+    | false, None => Err (Raise "TypeError")               (* default_factory of the member cannot build the class *)
+    | _, _ => Ok (pick_source default_sources (parent_defaults first_top n cd explicit) cd)
+    end.
 
   Fixpoint assoc (d : string) (l : list (string * val)) : option val :=
     match l with [] => None | (x, v) :: r => if String.eqb x d then Some v else assoc d r end.
@@ -401,6 +470,7 @@ Section WithFacts.
   (* whole pipeline; result = the field's value at each registered destination, in registration order *)
   Definition run (dests : list string) (k : kind) (cd : option val) (explicit : list (option val))
              (cli : option (list tok)) : res (list val) :=
+    if negb (conflict_discovery_order && nested_dests_from_parent) then Err OutOfFuel else
     bind (fix_conflict_merge dests) (fun merged =>
     let n := List.length merged in
     let first_top := Nat.eqb (level (hd "" merged)) 1 in
